@@ -64,7 +64,7 @@ func c12Signed[I signedInt](kind string, gen func() *rapid.Generator[I], bits in
 			}
 			seen[name] = true
 			g := gen()
-			style := len(cs) % 5
+			style := len(cs) % 6
 			cs = append(cs, c12Case{top: bits == 64 && (th >= 1<<61 || th <= -(1<<61)), name: name, want: fmt.Sprint(want), depth: 4, prop: func(t *rapid.T, out *string) {
 				x := int64(g.Draw(t, "x"))
 				*out = fmt.Sprint(x)
@@ -103,7 +103,7 @@ func c12Unsigned[I unsignedInt](kind string, gen func() *rapid.Generator[I], bit
 		seen[th] = true
 		th := th
 		g := gen()
-		style := len(cs) % 5
+		style := len(cs) % 6
 		cs = append(cs, c12Case{top: bits == 64 && th >= 1<<62, name: fmt.Sprintf("%s x>=%d", kind, th), want: fmt.Sprint(th), depth: 3, prop: func(t *rapid.T, out *string) {
 			x := uint64(g.Draw(t, "x"))
 			*out = fmt.Sprint(x)
@@ -449,10 +449,17 @@ func c12Fail(t *rapid.T, style int, x string, idx int, far bool) {
 		_ = empty[idx|1<<40] // index out of range [N] with length 0, N names the value
 	case 3:
 		t.Errorf("beyond threshold: %s", x)
-	default:
+	case 4:
 		t.Cleanup(func() { t.Errorf("beyond threshold (reported by a cleanup): %s", x) })
 		if far {
 			t.Errorf("far beyond threshold: %s", x)
+		}
+	default:
+		// a Cleanup function reports the failure non-fatally and skips; for far values a newer Cleanup function
+		// has skipped before, so the older one runs while another skip is already in flight
+		t.Cleanup(func() { t.Errorf("beyond threshold (reported by a cleanup that then skips): %s", x); t.SkipNow() })
+		if far {
+			t.Cleanup(func() { t.Skip("a newer cleanup skips first") })
 		}
 	}
 }
